@@ -152,4 +152,20 @@ def handleRegs : List String → String
       " A=" ++ encNats ((List.range classes.length).map (fun i => (argDemanded classes i).getD 0))
   | _ => "bad-op"
 
+/-! class arguments: `argcls <class>,<class>.. <type>,<type>..`; a qualified name = interned components
+    joined by `.`; answer per type: `o<index>` (wrapped class of this library) or `f<last component>` -/
+def decQName (s : String) : QName := (s.splitOn ".").map String.toNat!
+
+def decQNames (s : String) : List QName := if s == "-" then [] else (s.splitOn ",").map decQName
+
+def encArgClass : ArgClass → String
+  | .own i => "o" ++ toString i
+  | .foreign n => "f" ++ toString n
+
+def handleArgCls : List String → String
+  | [cs, qs] =>
+    let classes := decQNames cs
+    ",".intercalate ((decQNames qs).map (fun q => encArgClass (classArgPop classes q)))
+  | _ => "bad-op"
+
 end Driver
